@@ -131,24 +131,53 @@ def expected(cfg, repo=None):
 
 
 def headerish(line):
-    """a block header line, or a comment line that spells one (`# profile x {`)"""
-    return bool(scan.HDR.match(re.sub(r'^(\s*)#+\s*', r'\1', line)))
+    """a block header line (a comment that spells one, `# profile x {`, is a comment: the statement allows a manifest to
+    rewrite header flags, nothing else)"""
+    return bool(scan.HDR.match(line))
+
+
+def flagless(line):
+    return ' '.join(re.sub(r'flags\s*=\s*\([^)]*\)', ' ', line).split())
 
 
 def only_headers_differ(a, b):
     la, lb = a.split('\n'), b.split('\n')
-    return len(la) == len(lb) and all(x == y or (headerish(x) and headerish(y)) for x, y in zip(la, lb))
+    return len(la) == len(lb) and all(x == y or (headerish(x) and headerish(y) and flagless(x) == flagless(y)) for x, y in zip(la, lb))
+
+
+def first_difference(a, b):
+    la, lb = a.split('\n'), b.split('\n')
+    for i, (x, y) in enumerate(zip(la, lb)):
+        if x != y and not (headerish(x) and headerish(y) and flagless(x) == flagless(y)):
+            return 'line %d: `%s` -> `%s`' % (i + 1, x.strip()[:80], y.strip()[:80])
+    return 'line count %d -> %d' % (len(la), len(lb))
+
+
+def planted():
+    """generated sources next to the shipped ones (harness snapshot only): a profile named by a flags manifest whose text has
+    lines that look like headers without being one; a profile whose ignore entry carries a trailing blank; a profile whose
+    file name starts like a flattened directory"""
+    def rd(rel):
+        return open(os.path.join(C.REPO, rel)).read()
+    prof = ('abi <abi/4.0>,\n\ninclude <tunables/global>\n\n@{exec_path} = @{bin}/%s\nprofile %s @{exec_path} flags=(attach_disconnected) {\n  include <abstractions/base>\n\n  @{exec_path} mr,\n\n'
+            '  owner {\n    @{HOME}/.verif r,\n  }\n\n  # profile pivoted {\n  #   /etc/verif r,\n  # }\n\n  /etc/verif.d/ r, # was flags=(complain) once\n\n'
+            '  profile sub {\n    include <abstractions/base>\n    include if exists <local/%s_sub>\n  }\n\n  include if exists <local/%s>\n}\n')
+    return {'apparmor.d/groups/apps/verif-c04-flagged': prof % (('verif-c04-flagged',) * 4),
+            'apparmor.d/groups/apps/verif-c04-ignored': prof % (('verif-c04-ignored',) * 4),
+            'apparmor.d/groups/apps/profiles-verif-c04': prof % (('profiles-verif-c04',) * 4),
+            'dists/flags/main.flags': rd('dists/flags/main.flags').rstrip('\n') + '\nverif-c04-flagged complain,attach_disconnected\n',
+            'dists/ignore/main.ignore': rd('dists/ignore/main.ignore').rstrip('\n') + '\nverif-c04-ignored \n'}
 
 
 def judge(ex, cfg, tree, fnd, ev, where):
-    files, links, problems, flagged, editable = expected(cfg)
+    files, links, problems, flagged, editable = expected(cfg, ex.snap)
     for p in problems:
         fnd.report('manifest ' + p.split(':')[0][:100], p, {'config': cfg._asdict()})
     got_files = {k: e for k, e in tree.items() if e[0] == 'f'}
     got_links = {k: e for k, e in tree.items() if e[0] == 'l'}
     n = 0
     for k in sorted(set(files) - set(got_files)):
-        fnd.report('lost ' + k, '%s: %s expected in the prepared tree (from %s) but missing' % (where, k, os.path.relpath(files[k], C.REPO)),
+        fnd.report('lost ' + k, '%s: %s expected in the prepared tree (from %s) but missing' % (where, k, os.path.relpath(files[k], ex.snap)),
                    {'config': cfg._asdict(), 'path': k})
     for k in sorted(set(got_files) - set(files)):
         fnd.report('leaked ' + k, '%s: %s is in the prepared tree but should not be (ignored, upstreamed, renamed or never shipped)' % (where, k),
@@ -176,7 +205,7 @@ def judge(ex, cfg, tree, fnd, ev, where):
                     fnd.report('flags-not-applied ' + base, '%s: manifest sets flags %s on %s but the prepared header is `%s`' % (where, flagged[base], base, bl[0].header),
                                {'config': cfg._asdict(), 'path': k})
                 continue
-        fnd.report('content-changed ' + k, '%s: content of %s differs from its source %s outside block-header lines' % (where, k, os.path.relpath(files[k], C.REPO)),
+        fnd.report('content-changed ' + k, '%s: content of %s differs from its source %s outside the flags of block-header lines (%s)' % (where, k, os.path.relpath(files[k], ex.snap), first_difference(want.decode(errors='surrogateescape'), got)),
                    {'config': cfg._asdict(), 'path': k})
     for k, name in sorted(links.items()):
         kk = 'apparmor.d/' + k
@@ -202,7 +231,7 @@ def run(tier):
                cfgx.Cfg('opensuse', 4, '4.1', 'none', True)]
     if tier != 'thorough':
         leavers = leavers[:2]
-    ex = cfgx.Explorer()
+    ex = cfgx.Explorer(extra_src=planted())
     penv = {'VERIF_PREPARE_ONLY': '1', 'VERIF_MAPX': '-'}
     try:
         jobs = []; meta = []
@@ -240,7 +269,7 @@ def run(tier):
            prior_states=['clean', 'junk'] + ['after(%s)' % cfgx.tag(p) for p in leavers])
     ev.add(rule='state = Merkle map of .build after the prepare stage; transition = one prepare (or full prebuild, for the prior state) run of the real binary')
     ev.assume('reference model of the expected listing written from the documentation (ignore entry = path under apparmor.d/ or profile base name; flatten groups/*/ and profiles-*-*/; debian/whonix < 4.1 get dists/ubuntu; 4.1 drops five upstreamed files; ABI 4 overwrite renames + disable/ links; --full installs groups/_full and may edit tunables/multiarch.d/profiles and abstractions/gstreamer, whose content is C18\'s subject)',
-              'files named by a flags manifest may differ from the source in block-header lines only (a comment line that spells a header, `# profile x {`, counts as one: the weaker reading); their first block must carry exactly the manifest flags')
+              'files named by a flags manifest may differ from the source in block-header lines only and there only in the flags clause (a comment that spells a header is a comment); their first block must carry exactly the manifest flags')
     return C.conclude(ev, fnd)
 
 
